@@ -8,3 +8,31 @@
  * a = cv1/re_tau, the definition with chi = nu re_tau): cvc5, z3 4.8, z3 5.1 all time out at 300 s, also with atomic nu. */
 #define CONTRACT_rans_sa__dvt_1          REQ(1) ENS_EQ(rs_dvt(eta)) FRAME()
 #endif
+
+#if defined(UNIT_fans_sa_transient_free_shear)
+/* eval_q_nu(x,y,t): production term c_b1 |Omega| rho nu with |Omega| = sqrt(Omega^2); the code has pi*sqrt(w^2/L^2): needs sqrt(pi^2 a) = pi sqrt(a)
+ * (z3 proves that lemma alone in 0.1 s and the rest of the identity in seconds, but not together in 200 s). */
+#define CONTRACT_fans_sa_transient_free_shear__eval_q_nu_3      REQ(VF_PI_OK && PI > 0) ENS_EQ(fs_q_nu(x, y, t)) FRAME()
+/* eval_q_rho_u(x,y), eval_q_rho_e(x,y): CBMC 6.11 crashes (simplifier invariant std_expr.cpp:134) when the three-argument body is
+ * specialised at the constant t = 0.0; the sibling wrappers eval_q_rho / eval_q_rho_v / eval_q_nu / eval_exact_nu (same one-line body) discharge. */
+#define CONTRACT_fans_sa_transient_free_shear__eval_q_rho_u_2   REQ(1) ENS_EQ(FSC(eval_q_rho_u_3)(x, y, LIT(0, 1))) FRAME()
+#define CONTRACT_fans_sa_transient_free_shear__eval_q_rho_e_2   REQ(1) ENS_EQ(FSC(eval_q_rho_e_3)(x, y, LIT(0, 1))) FRAME()
+#endif
+
+#if defined(UNIT_fans_sa_steady_wall_bounded)
+/* update(x,y): the full contract "every cached member == its defining expression" incl. the derivative members == jet components.
+ * Not dischargeable: (1) CBMC 6.11 crashes on the extracted body (statement D2vDxy = -15/14 V/x/y: negative non-integer constant folded
+ * with the 1/14 inside V; simplifier invariant std_expr.cpp:134); (2) Omega needs sqrt(c^2 a) = c sqrt(a); (3) the derivative members
+ * need the power laws / inverse-scaling identities listed in p_c05.py.  Attached here so that the evaluators are checked against it. */
+#define CONTRACT_fans_sa_steady_wall_bounded__update_2         WB_UPDATE_CONTRACT
+#define CONTRACT_fans_sa_steady_wall_bounded__eval_exact_u_2   WB_REQ ENS_EQ(wb_exact_u(x, y)) FRAME(WB_CACHE)
+#define CONTRACT_fans_sa_steady_wall_bounded__eval_exact_v_2   WB_REQ ENS_EQ(wb_exact_v(x, y)) FRAME(WB_CACHE)
+#define CONTRACT_fans_sa_steady_wall_bounded__eval_exact_t_2   WB_REQ ENS_EQ(wb_exact_t(x, y)) FRAME(WB_CACHE)
+#define CONTRACT_fans_sa_steady_wall_bounded__eval_exact_rho_2 WB_REQ ENS_EQ(wb_exact_rho(x, y)) FRAME(WB_CACHE)
+#define CONTRACT_fans_sa_steady_wall_bounded__eval_exact_nu_2  WB_REQ ENS_EQ(wb_exact_nu(x, y)) FRAME(WB_CACHE)
+#define CONTRACT_fans_sa_steady_wall_bounded__eval_q_rho_2     WB_REQ ENS_EQ(wb_q_rho(x, y)) FRAME(WB_CACHE)
+#define CONTRACT_fans_sa_steady_wall_bounded__eval_q_rho_u_2   WB_REQ ENS_EQ(wb_q_rho_u(x, y)) FRAME(WB_CACHE)
+#define CONTRACT_fans_sa_steady_wall_bounded__eval_q_rho_v_2   WB_REQ ENS_EQ(wb_q_rho_v(x, y)) FRAME(WB_CACHE)
+#define CONTRACT_fans_sa_steady_wall_bounded__eval_q_rho_e_2   WB_REQ ENS_EQ(wb_q_rho_e(x, y)) FRAME(WB_CACHE)
+#define CONTRACT_fans_sa_steady_wall_bounded__eval_q_nu_2      WB_REQ ENS_EQ(wb_q_nu(x, y)) FRAME(WB_CACHE)
+#endif
